@@ -1,16 +1,22 @@
 #!/bin/sh
 # usage: try_mutant.sh <Cxx> <worktree> <N> [test dirs...]
 # Confirms mutant N of a seeded-defect worktree (demo passes clean / fails mutated, existing
-# tests pass mutated), then runs the property's quick check against the mutated sources.
+# tests pass mutated), then runs the property's quick check against the mutated sources
+# (PYTHONPATH points the check at the worktree; generated-C mutants are compiled there).
 prop=$1; wt=$2; n=$3; shift 3
 cd "$wt" || exit 2
 git checkout -q -- . ; export PYTHONPATH="$wt/src"
+FLAGS="-shared -fPIC -O2 -w -DNPY_NO_DEPRECATED_API=NPY_1_7_API_VERSION -I/root/.pyenv/versions/3.12.1/include/python3.12 -I/venv/lib/python3.12/site-packages/numpy/_core/include"
+build() { # $1 = path of .c/.cpp relative to worktree
+  so="${1%.*}.cpython-312-x86_64-linux-gnu.so"
+  case "$1" in *.cpp) g++ -std=c++11 $FLAGS "$1" -o "$so";; *) gcc $FLAGS "$1" -o "$so";; esac
+}
 echo "== clean demo"; /venv/bin/python mutants/demo_$n.py >/dev/null 2>&1; echo "clean demo exit=$?"
-if grep -q '^--- .*bonds.c' mutants/mutant_$n.diff 2>/dev/null; then
-  cp src/biotite/structure/bonds.c /tmp/bonds.c.keep
-  patch -s -p0 src/biotite/structure/bonds.c < mutants/mutant_$n.diff || patch -s src/biotite/structure/bonds.c mutants/mutant_$n.diff
-  gcc -shared -fPIC -O2 -w -DNPY_NO_DEPRECATED_API=NPY_1_7_API_VERSION -I/root/.pyenv/versions/3.12.1/include/python3.12 -I/venv/lib/python3.12/site-packages/numpy/_core/include src/biotite/structure/bonds.c -o src/biotite/structure/bonds.cpython-312-x86_64-linux-gnu.so
-  cfile=1
+cfile=$(grep -m1 '^+++ ' mutants/mutant_$n.diff | sed 's/^+++ //; s/\t.*//' | grep -E '\.(c|cpp)$' | sed 's#^.*\(src/biotite/.*\)$#\1#')
+if [ -n "$cfile" ]; then
+  cp "$cfile" /tmp/cfile.keep.$$
+  patch -s "$cfile" mutants/mutant_$n.diff || exit 2
+  build "$cfile"
 else
   git apply mutants/mutant_$n.diff || exit 2
 fi
@@ -21,8 +27,8 @@ fi
 echo "== check $prop (mutated)"
 (cd /verif && PYTHONPATH="$wt/src" timeout 1500 ./check $prop --tier quick --no-build > /tmp/try_${prop}_${n}.log 2>&1; echo "check exit=$?"; grep -c '^VIOLATION' /tmp/try_${prop}_${n}.log; grep -A6 'violations in' /tmp/try_${prop}_${n}.log | cut -c1-220 | head -8)
 if [ -n "$cfile" ]; then
-  cp /tmp/bonds.c.keep src/biotite/structure/bonds.c
-  gcc -shared -fPIC -O2 -w -DNPY_NO_DEPRECATED_API=NPY_1_7_API_VERSION -I/root/.pyenv/versions/3.12.1/include/python3.12 -I/venv/lib/python3.12/site-packages/numpy/_core/include src/biotite/structure/bonds.c -o src/biotite/structure/bonds.cpython-312-x86_64-linux-gnu.so
+  cp /tmp/cfile.keep.$$ "$cfile"; rm -f /tmp/cfile.keep.$$
+  build "$cfile"
 else
   git checkout -q -- .
 fi
